@@ -126,6 +126,11 @@ def _unescaped_flows(t) -> list:
         k = x[0]
         if k == "app" and x[1] == ("global", "builtins.repr"):
             return  # escaped
+        if k == "ifexp" and len(x) == 4:
+            # (a if cond else b): the condition chooses, it does not reach the text
+            go(x[2], escaped, via)
+            go(x[3], escaped, via)
+            return
         if k == "fstr":
             for p in x[1]:
                 if p[0] == "fmt":
